@@ -469,6 +469,10 @@ func (x *Exec) callAbstract(st *State, fr *Frame, at ssa.Instruction, name strin
 		} else {
 			writes = x.writesWorld(fn, 0)
 		}
+		if _, ok := getterFieldNoBody(fn); ok && len(fn.Blocks) == 0 {
+			// a generated getter of a package loaded without bodies: it reads one field and writes nothing
+			writes, pureHeap = false, true
+		}
 	} else if cc != nil && cc.IsInvoke() {
 		writes = !looksReadOnly(cc.Method.Name())
 		pureHeap = looksReadOnly(cc.Method.Name()) && !writesThroughArgs(cc.Method.Name())
@@ -682,6 +686,17 @@ func (x *Exec) checkGuards(st *State, fr *Frame, at ssa.Instruction, callee stri
 		}
 		for i, a := range args {
 			sc.vars[fmt.Sprintf("arg%d", i)] = a
+		}
+		// argN is the parameter that was N-th when the ledger was recorded: parameters that were swapped
+		// (or one that was added) since do not change what a guard says (rename.go)
+		if ci, ok := at.(ssa.CallInstruction); ok {
+			if cf := ci.Common().StaticCallee(); cf != nil && len(cf.Params) == len(args) {
+				for i := range args {
+					if j := recordedParamIndex(callee, cf, i); j != i && j < len(args) {
+						sc.vars[fmt.Sprintf("arg%d", i)] = args[j]
+					}
+				}
+			}
 		}
 		t, err := x.evalBool(st, top, cl.E, sc)
 		if err != nil {
